@@ -41,6 +41,10 @@ POOL = {
     "sg": "SIGNAL->TS(int)",
     "rf": "REF(#S)->#S",
     "ri": "REF(TS(int))->TS(int)",
+    "dr": "TSD($K,REF(TS($T)))->TS($T)",          # REF / SIGNAL leaves BELOW a collection pattern: the input-direction rules
+    "dsg": "TSD($K,SIGNAL)->TS(int)",              # (REF[X] accepts a plain X, SIGNAL accepts anything) apply at any depth
+    "lr": "TSL(REF(TS($T)),%N)->TS($T)",
+    "lsg": "TSL(SIGNAL,%N)->TS(int)",
     "cii": "TS(int),TS(int)->TS(int)",
     "gss": "TS($T),TS($T)->TS($T)",
     "gsu": "TS($T),TS($U)->TS($T)",
@@ -60,7 +64,7 @@ POOL = {
 UNIVERSE = ["TSB(Quote)", "TSB(Spread)", "TSB(U)", "TSB(Trade)", "TSL(TSB(Quote),3)", "TSD(int,TSB(Spread))",
             "TS(int)", "TS(str)", "TS(float)", "TS(bool)", "TSL(TS(int),3)", "TSL(TS(str),2)", "TSL(TSL(TS(int),3),2)",
             "TSD(int,TS(str))", "TSD(str,TS(int))", "TSD(int,TSL(TS(int),3))", "TSS(int)", "TSS(str)", "REF(TS(int))",
-            "REF(TSL(TS(int),3))", "SIGNAL"]
+            "REF(TSL(TS(int),3))", "SIGNAL", "TSD(str,REF(TS(int)))", "TSL(REF(TS(int)),3)"]
 
 
 SMALL = ["TSB(Quote)", "TSB(Spread)", "TSB(U)", "TS(int)", "TS(str)", "TS(float)", "TSL(TS(int),3)", "REF(TS(int))"]
